@@ -227,15 +227,16 @@ def run(ctx):
     r4 = R["C02.R4"]
     ex, dedge, dregion, _, dcall = pr.swap_direct
     dv = P.val_call(ex, ex.body, dcall)
-    msg_i = common.param_index_of_type(ex, "^%s$" % re.escape(ctx.N.exec_enum("pair")))
+    exm = pr.execute          # the entry point holding the message (== ex unless the arm goes through a thin per-variant handler)
+    msg_i = common.param_index_of_type(exm, "^%s$" % re.escape(ctx.N.exec_enum("pair")))
     direct_offer = set(ctx.roots(dv[4][offer_i]))
-    want_direct = {P_(ex, msg_i, "~Swap.offer_asset")}
+    want_direct = {P_(exm, msg_i, "~Swap.offer_asset")}
     if direct_offer != want_direct:
         r4.fail("C02.R4:offer-origin", ex.path, common.span_of_block_term(ex, dcall), "direct path: offer asset ⊢ %s, expected the message's offer_asset" % sorted(direct_offer))
     found = False
     for g in guards_in_region(ctx, ex, dregion):
         c = g.cond
-        if c[0] == "cmp" and c[1] == "is_native_token" and set(ctx.roots(c[2][0])) in (want_direct, {P_(ex, msg_i, "~Swap.offer_asset.info")}):
+        if c[0] == "cmp" and c[1] == "is_native_token" and set(ctx.roots(c[2][0])) in (want_direct, {P_(exm, msg_i, "~Swap.offer_asset.info")}):
             if check_guard_protects_call(ctx, r4, ex, g.edge(True), g.edge(False), dcall, "native-offer", "C02.R4"):
                 r4.site("is_native_token(offer_asset) at %s dominates the direct swap call" % common.span_of_block_term(ex, g.b))
             found = True
@@ -270,7 +271,12 @@ def run(ctx):
     sinks = roles.sink_blocks(P, swap)
     pays = pr.calls_to(swap, tc) if tc is not None else []
     others = [(b, d) for (b, d) in sinks if b not in pays]
+    role_items = ctx.N.role_items()
     for b, d in others:
+        m_ = re.match(r"^store \w+ (\S+)$", d)
+        if m_ and m_.group(1) not in role_items and m_.group(1).startswith("I:"):
+            r6.site("%s: a storage item none of the properties speaks about (no payout, no pricing input)" % d)
+            continue
         r6.fail("C02.R6:extra-effect:%s" % d, swap.path, common.span_of_block_term(swap, b), "swap handler has an effect besides the single payout: %s" % d)
     if len(pays) != 1:
         r6.fail("C02.R6:payout-count", swap.path, swap.span, "swap handler builds %d payout transfers, expected exactly one" % len(pays))
@@ -333,7 +339,7 @@ def run(ctx):
     checks = [
         ("direct sender", sender_i.arg_roots(ctx.R, dv), {P_(ex, exi, ".sender")}, ex, dcall),
         ("hook sender", sender_i.arg_roots(ctx.R, hv), {P_(recv, cw20_i, ".sender")}, recv, hcall),
-        ("direct to", to_i.arg_roots(ctx.R, dv), {"A:std::option::Option::None{}", "A:std::option::Option::Some{0=valid(%s)}" % P_(ex, msg_i, "~Swap.to~Some.0")}, ex, dcall),
+        ("direct to", to_i.arg_roots(ctx.R, dv), {"A:std::option::Option::None{}", "A:std::option::Option::Some{0=valid(%s)}" % P_(exm, msg_i, "~Swap.to~Some.0")}, ex, dcall),
         ("hook to", to_i.arg_roots(ctx.R, hv), {"A:std::option::Option::None{}", "A:std::option::Option::Some{0=valid(%s~Swap.to~Some.0)}" % offer_root.split("~Swap")[0]}, recv, hcall),
     ]
     for label, got, want, f, cb in checks:
